@@ -361,7 +361,7 @@ class CFG:
             return None
         # call: Try::branch(arg) with arg a just-built aggregate
         f = d0['f']
-        if not callee_decl(f).endswith('ops::Try::branch'):
+        if not callee_decl(f).endswith('Try::branch'):
             return None
         a = d0['a'][0]
         apl = a.get('m') or a.get('c')
